@@ -165,6 +165,11 @@ var verifC20TrickPaths = []struct {
 	{BasePreviewPath + "/config/x", BasePath + "/config/x"},
 	{BasePreviewPath + "/config/../tasks", BasePath + "/tasks"},
 	{BasePreviewPath + "/../v1/config/x", BasePath + "/config/x"},
+	// neighbours of the exact route /tasks: one byte more (symbolic, see below), a trailing
+	// slash, one byte less - other resources, never served by the /tasks handler
+	{BasePath + "/tasks\x00", BasePath + "/tasks\x00"},
+	{BasePath + "/tasks/", BasePath + "/tasks/"},
+	{BasePath + "/task", BasePath + "/task"},
 }
 
 // VerifC20PathTricks: the subtree route /config/ behind the real mux and authorisation,
@@ -174,6 +179,13 @@ func VerifC20PathTricks(v *vrt.T) {
 	methods := []string{"GET", "POST", "DELETE"}
 	method := methods[v.Choose("method", len(methods))]
 	tp := verifC20TrickPaths[v.Choose("path", len(verifC20TrickPaths))]
+	if n := len(tp.raw); tp.raw[n-1] == 0 {
+		// the extra byte is arbitrary (not a separator or a dot, which the other rows cover)
+		b := v.Byte("extra byte")
+		v.Assume(b != '/' && b != '.' && b != 0)
+		tp.raw = tp.raw[:n-1] + string([]byte{b})
+		tp.canonical = tp.raw
+	}
 
 	grants := map[string][]auth.Privilege{}
 	masks := map[string]auth.Privilege{}
